@@ -1,4 +1,5 @@
 """C03 - the returned solution is a point that was really evaluated."""
+import numpy as np
 from ..core import CaseResult, Profile
 from .. import scenario as sc, clauses as cl
 
@@ -15,15 +16,51 @@ ASSUMPTIONS = ["x tolerance (8+2S)*eps*max(1,|x|,|bounds|) with S = number of ba
                "resid tolerance 8*eps*k*max|r| for k samples; obj tolerance 16*eps*(sum r^2 + |h|)",
                "h is recomputed by the harness from the regulariser's parameters"]
 
-PROF = sc.make_prof(reg=0.15, zero_resid=0.15, diag=0.2)
+PROF = sc.make_prof(reg=0.15, zero_resid=0.15, diag=0.2, proj=0.1)
+
+
+MARK = "[soln.x is the projection routine's output for the evaluated point: re-projection]"
+
+
+def explain_reprojection(case, o, dlog, res):
+    """With projections dfols recomputes the absolute position of the returned point by running the projection routine again.
+    When a C03.x failure is *exactly* that - soln.x is bit-identical to the output of a logged projection call whose input was
+    (to rounding) the evaluated point itself or the input of the call that produced the evaluated point - the detail is marked,
+    and the known finding 'reprojected-solution' is keyed on the mark. Any other mismatch (e.g. an unprojected point) is not."""
+    idx = [i for i, (c, d) in enumerate(res.failures) if c == "C03.x"]
+    if not idx or o.soln is None:
+        return
+    groups = cl.point_groups(o)
+    try:
+        xe = o.calls[groups[int(o.soln.xmin_eval_num)][0]][0]
+    except Exception:
+        return
+    x = np.asarray(o.soln.x, dtype=float)
+    mags = [1.0] + [float(np.max(np.abs(c[0]))) for c in o.calls]
+    tol = (8 + 2 * o.nshifts) * sc.EPS * max(mags)
+    producers = [c["x_in"] for c in dlog.calls if np.array_equal(c["out"], xe)]
+    for c in dlog.calls:
+        if np.array_equal(c["out"], x):
+            w = c["x_in"]
+            if float(np.max(np.abs(w - xe))) <= tol or any(float(np.max(np.abs(w - u))) <= tol for u in producers):
+                for i in idx:
+                    res.failures[i] = (res.failures[i][0], res.failures[i][1] + " " + MARK)
+                return
+
+
+def known_reprojected(case, clause, detail):
+    return bool(case.get("proj")) and clause == "C03.x" and MARK in detail
 
 
 def run(case):
     res = CaseResult()
-    o = sc.run_solve(case, iter_hook=cl.iteration_hook(case, check_c03=True, check_c04=False))
+    dlog = sc.DykstraLog() if case.get("proj") else None
+    o = sc.run_solve(case, iter_hook=cl.iteration_hook(case, check_c03=True, check_c04=False), dykstra_log=dlog)
     for clause, detail in o.iter_fail:
         res.fail(clause, detail)
     cl.c03(case, o, res)
+    if dlog is not None:
+        explain_reprojection(case, o, dlog, res)
     r = cl.route(o)
     res.classes.append("route:" + r)
     res.classes += case["tags"]
@@ -40,4 +77,4 @@ def run(case):
 
 
 PROFILES = {"solve": Profile("solve", lambda: sc.scenarios(PROF), run, quick=5000, thorough=120000, timeout=120)}
-KNOWN = {}
+KNOWN = {"reprojected-solution": known_reprojected}
